@@ -80,17 +80,26 @@ func (c *pollCtx) Hit() bool    { return c.fired }
 func (c *pollCtx) HitAt() int   { return c.firedAt }
 func (c *pollCtx) Kind() string { return "sentinel" }
 
-// realCtx wraps a context of the standard library and counts the polls.
+// realCtx wraps a context of the standard library and counts the polls.  It
+// can cancel the wrapped context by itself at its limit-th poll (limit > 0).
 type realCtx struct {
 	context.Context
 	polls   int
+	limit   int
 	fired   bool
 	firedAt int
-	cancel  context.CancelFunc
+	cancel  func() // cancels the wrapped context the way its kind prescribes (with a cause where there is one)
 	kind    string
+	raw     bool // hand the wrapped context itself to gojq (polls are not counted then)
 }
 
-func (c *realCtx) Done() <-chan struct{} { c.polls++; return c.Context.Done() }
+func (c *realCtx) Done() <-chan struct{} {
+	c.polls++
+	if c.limit > 0 && c.polls >= c.limit {
+		c.fire()
+	}
+	return c.Context.Done()
+}
 func (c *realCtx) fire() {
 	if !c.fired {
 		c.fired, c.firedAt = true, c.polls
@@ -102,23 +111,158 @@ func (c *realCtx) Hit() bool    { return c.fired }
 func (c *realCtx) HitAt() int   { return c.firedAt }
 func (c *realCtx) Kind() string { return c.kind }
 
-func newRealCtx() *realCtx {
-	ctx, cancel := context.WithCancel(context.Background())
-	return &realCtx{Context: ctx, cancel: cancel, kind: "real"}
+// arg is what RunWithContext receives.
+func (c *realCtx) arg() context.Context {
+	if c.raw {
+		return c.Context
+	}
+	return c
 }
 
-// newPreCancelled: a standard context cancelled before RunWithContext (k = 0).
-func newPreCancelled(kind string) *realCtx {
-	var ctx context.Context
-	var cancel context.CancelFunc
-	if kind == "deadline" {
-		// a deadline in the past: expired at creation, no clock dependence
-		ctx, cancel = context.WithDeadline(context.Background(), time.Unix(0, 0))
-	} else {
-		ctx, cancel = context.WithCancel(context.Background())
-		cancel()
+// ctxArg: the context handed to gojq for an injector.
+func ctxArg(ctx context.Context) context.Context {
+	if rc, ok := ctx.(*realCtx); ok {
+		return rc.arg()
 	}
-	return &realCtx{Context: ctx, cancel: cancel, kind: kind, fired: true, firedAt: 0}
+	return ctx
+}
+
+// causeErr is the cause a user attaches to a cancellation; gojq must never
+// deliver it in place of ctx.Err().
+type causeErr struct{ s string }
+
+func (e *causeErr) Error() string { return e.s }
+
+var errCause = &causeErr{"c07: the cause given by the user"}
+
+// customErr: an error type of its own for the custom context.
+type customErr struct{ s string }
+
+func (e *customErr) Error() string { return e.s }
+
+var errCustom = &customErr{"c07: custom context error type"}
+
+type ctxKey struct{}
+
+// stdKinds are the cancellable kinds of standard-library contexts.
+var stdKinds = []string{"real", "cause", "cause-child", "cause-value"}
+
+func isStdKind(kind string) bool {
+	for _, k := range stdKinds {
+		if k == kind {
+			return true
+		}
+	}
+	return false
+}
+
+// newStdCtx builds a standard-library context of the given kind, not yet
+// cancelled: real (WithCancel), cause (WithCancelCause, cancelled with
+// errCause), cause-child (WithCancel on top of a WithCancelCause parent; the
+// parent gets cancelled with the cause), cause-value (WithValue on top of it).
+func newStdCtx(kind string, limit int) *realCtx {
+	rc := &realCtx{kind: kind, limit: limit}
+	switch kind {
+	case "cause":
+		ctx, cancel := context.WithCancelCause(context.Background())
+		rc.Context, rc.cancel = ctx, func() { cancel(errCause) }
+	case "cause-child":
+		parent, cancel := context.WithCancelCause(context.Background())
+		ctx, cancelChild := context.WithCancel(parent)
+		_ = cancelChild // released through the parent
+		rc.Context, rc.cancel = ctx, func() { cancel(errCause) }
+	case "cause-value":
+		parent, cancel := context.WithCancelCause(context.Background())
+		rc.Context, rc.cancel = context.WithValue(parent, ctxKey{}, 1), func() { cancel(errCause) }
+	default:
+		ctx, cancel := context.WithCancel(context.Background())
+		rc.Context, rc.cancel = ctx, cancel
+	}
+	return rc
+}
+
+func newRealCtx() *realCtx { return newStdCtx("real", 0) }
+
+// preDoneKinds: contexts that are already done when RunWithContext is called
+// (k = 0).  No clock: deadlines lie in the past at creation.
+var preDoneKinds = []string{"precancelled", "deadline", "pre-cause", "pre-cause-child", "pre-cause-value", "deadline-cause", "timeout-cause", "deadline-cause-child", "deadline-cause-value", "pre-custom"}
+
+func isPreDone(kind string) bool {
+	kind = strings.TrimPrefix(kind, "raw:")
+	for _, k := range preDoneKinds {
+		if k == kind {
+			return true
+		}
+	}
+	return false
+}
+
+// newPreCancelled: a context cancelled or expired before RunWithContext.
+// "raw:<kind>" hands the standard context itself to gojq.
+func newPreCancelled(kind string) *realCtx {
+	raw := strings.HasPrefix(kind, "raw:")
+	k := strings.TrimPrefix(kind, "raw:")
+	var rc *realCtx
+	past := time.Unix(0, 0)
+	switch k {
+	case "deadline":
+		ctx, cancel := context.WithDeadline(context.Background(), past)
+		rc = &realCtx{Context: ctx, cancel: cancel}
+	case "deadline-cause":
+		ctx, cancel := context.WithDeadlineCause(context.Background(), past, errCause)
+		rc = &realCtx{Context: ctx, cancel: cancel}
+	case "timeout-cause":
+		ctx, cancel := context.WithTimeoutCause(context.Background(), -time.Hour, errCause)
+		rc = &realCtx{Context: ctx, cancel: cancel}
+	case "deadline-cause-child":
+		parent, cancel := context.WithDeadlineCause(context.Background(), past, errCause)
+		ctx, cancelChild := context.WithCancel(parent)
+		rc = &realCtx{Context: ctx, cancel: func() { cancelChild(); cancel() }}
+	case "deadline-cause-value":
+		parent, cancel := context.WithTimeoutCause(context.Background(), -time.Hour, errCause)
+		rc = &realCtx{Context: context.WithValue(parent, ctxKey{}, 1), cancel: cancel}
+	case "pre-cause", "pre-cause-child", "pre-cause-value":
+		rc = newStdCtx(strings.TrimPrefix(k, "pre-"), 0)
+		rc.cancel()
+	default: // precancelled
+		rc = newStdCtx("real", 0)
+		rc.cancel()
+	}
+	rc.kind, rc.raw, rc.fired, rc.firedAt = kind, raw, true, 0
+	return rc
+}
+
+// neverCtx: a custom context type that can never be cancelled (Done() nil).
+type neverCtx struct{ polls int }
+
+func (c *neverCtx) Deadline() (time.Time, bool) { return time.Time{}, false }
+func (c *neverCtx) Value(any) any               { return nil }
+func (c *neverCtx) Done() <-chan struct{}       { c.polls++; return nil }
+func (c *neverCtx) Err() error                  { return nil }
+
+// noDoneKinds: contexts whose Done() is nil.
+var noDoneKinds = []string{"nodone-background", "nodone-todo", "nodone-value", "nodone-custom"}
+
+func isNoDone(kind string) bool { return strings.HasPrefix(kind, "nodone-") }
+
+func newNoDone(kind string) context.Context {
+	switch kind {
+	case "nodone-todo":
+		return context.TODO()
+	case "nodone-value":
+		return context.WithValue(context.Background(), ctxKey{}, 1)
+	case "nodone-custom":
+		return &neverCtx{}
+	}
+	return context.Background()
+}
+
+// causeNote explains an item that is the context's cause instead of its error.
+func causeNote(ctx context.Context, v any) string {
+	if e, ok := v.(error); ok && ctx.Err() != nil && e != ctx.Err() && e == context.Cause(ctx) {
+		return fmt.Sprintf(" - that is context.Cause(ctx), not ctx.Err() (%v): errors.Is(err, ctx.Err()) = %v", ctx.Err(), errors.Is(e, ctx.Err()))
+	}
+	return ""
 }
 
 // ---------------------------------------------------------------------------
@@ -222,6 +366,7 @@ func prepareCached(src string, nvars int) (*prepared, error) {
 }
 
 func (p *prepared) start(ctx context.Context, via string, input any) gojq.Iter {
+	ctx = ctxArg(ctx)
 	if via == "query" && p.query != nil {
 		return p.query.RunWithContext(ctx, input)
 	}
